@@ -225,71 +225,92 @@ def _dna(s):
 
 
 def r3(repo, res):
+    """POS / REF / ALT of a record, per variant kind: write_vcf folded whole on a one-copy solution whose allele carries one variant of that kind
+    (the reference base is `C` wherever the gene is asked)."""
+    import collections as _c
+
     f = repo.func("diplotype::write_vcf")
-    fmt = [c for c in calls_in(f) if isinstance(c.func, ast.Attribute) and c.func.attr == "format"
-           and kwarg(c, "ref") is not None and kwarg(c, "alt") is not None]
-    if not fmt:
-        res.err("C12.R3", "record rendering call (format(... ref=, alt=, pos=)) not found in write_vcf")
-        return
-    call = fmt[0]
-    pos = kwarg(call, "pos")
-    ok = isinstance(pos, ast.BinOp) and isinstance(pos.op, ast.Add) and (
-        (isinstance(pos.right, ast.Constant) and pos.right.value == 1 and ast.unparse(pos.left).endswith(".pos"))
-        or (isinstance(pos.left, ast.Constant) and pos.left.value == 1 and ast.unparse(pos.right).endswith(".pos")))
-    res.ob("C12.R3", f, pos if pos is not None else call, ok, expected="POS = <0-based variant position> + 1",
-           found=ast.unparse(pos) if pos is not None else "no pos", clause="positions are one-based", key="vcf-pos")
-    # the record loop and the REF/ALT block = statements of the loop body that (transitively) define ref / alt
-    loop = None
-    for n in walk_local(f):
-        if isinstance(n, ast.For) and call in list(ast.walk(n)):
-            loop = n
-    if loop is None or not isinstance(loop.target, ast.Name):
-        res.err("C12.R3", "record loop not found")
-        return
-    mname = loop.target.id
-    rn, an = ast.unparse(kwarg(call, "ref")), ast.unparse(kwarg(call, "alt"))
-    block = []
-    for st in loop.body:
-        stored = {x.id for x in ast.walk(st) if isinstance(x, ast.Name) and isinstance(x.ctx, ast.Store)}
-        if stored & {rn, an}:
-            block.append(st)
-    if not block:
-        res.err("C12.R3", "REF/ALT definitions not found in the record loop")
-        return
+    res.analysed(f)
+    Mut = _c.namedtuple("Mutation", ["pos", "op"])
 
-    def hook(node, ev):
-        # any read of the gene reference sequence yields reference bases
-        if isinstance(node, ast.Subscript) and isinstance(node.value, ast.Name) and node.value.id == "gene":
-            if isinstance(node.slice, ast.Slice):
-                lo, hi = ev.ev(node.slice.lower), ev.ev(node.slice.upper)
-                return "C" * max(0, hi - lo)
-            ev.ev(node.slice)
-            return "C"
-        return NotImplemented
+    class GeneRef:
+        _fold_ok = True
+        name, chr = "G", "22"
 
+        def __init__(self, alleles):
+            self.alleles = alleles
+            self.mutations = {}
+
+        def __getitem__(self, i):
+            return "C" * max(0, i.stop - i.start) if isinstance(i, slice) else "C"
+
+        def get_functional(self, m, infer=True):
+            return None
+
+        def is_functional(self, m, infer=True):
+            return False
+
+        def get_rsid(self, m, default=True):
+            return "-"
+
+        def deletion_allele(self):
+            return "5"
+
+    class Cov:
+        _fold_ok = True
+        sam = Obj(name="S", _prefix="", path="in.bam", kind="sam")
+
+        def __getitem__(self, m):
+            return 7
+
+        def coverage(self, m):
+            return 7
+
+        def total(self, m):
+            return 14
+
+        def percentage(self, m):
+            return 50.0
+
+    pos_ok, pos_found = True, []
     for kind, op, good in KIND_OPS:
-        m = Obj(pos=1000, op=op)
-        ev = Evaluator({mname: m}, hook=hook)
+        v = Mut(1000, op)
+        gene = GeneRef({"1": Obj(func_muts=set(), minors={"1.001": Obj(neutral_muts={v})})})
+        minors = [minor_solution(repo, solution=[Rec(major="1", minor="1.001", added=[], missing=[])], get_major_diplotype=lambda: "*1",
+                                 major_solution=Obj(cn_solution=Obj(gene=gene)), profile=Obj(display_format=False))]
+        out = []
         try:
-            k, v = ev.run(block)
+            k, val = Evaluator({"sample": "S", "gene": gene, "minors": minors, "f": "FILE", "version": "0", "coverage": Cov()},
+                               funcs={"print": lambda *a, sep=" ", end="\n", file=None: out.append(sep.join(str(x) for x in a)), "td": lambda t: t,
+                                      "collections.defaultdict": _c.defaultdict}).run(
+                [s_ for s_ in f.body if not (isinstance(s_, ast.Expr) and isinstance(s_.value, ast.Constant))])
         except Unfoldable as e:
-            res.err("C12.R3", f"REF/ALT block is outside the folding language: {e}")
+            res.err("C12.R3", f"write_vcf outside the folding language: {e}")
             return
-        ref, alt = ev.locals.get(rn), ev.locals.get(an)
-        if k == "raise":
-            ok, found = False, f"raises {v}"
+        except Raised as e:
+            k, val = "raise", e.kind
+        recs = [r.split("\t") for r in out[1:] if len(r.split("\t")) >= 5]
+        if k == "raise" or len(recs) != 1:
+            ok, found = False, (f"raises {val}" if k == "raise" else f"{len(recs)} record(s) written for one carried variant")
+            ref = alt = pos = None
         else:
+            pos, ref, alt = recs[0][1], recs[0][3], recs[0][4]
             try:
                 ok = bool(good(ref, alt, "C"))
-            except Exception:
+            except Exception:  # noqa: BLE001
                 ok = False
-            found = f"op {op!r} -> REF={ref!r} ALT={alt!r}"
-        res.ob("C12.R3", f, block[0], ok,
+            found = f"op {op!r} -> POS={pos} REF={ref!r} ALT={alt!r}"
+        if kind in ("substitution", "insertion"):   # the variant sits at / right after its own position: POS = 0-based position + 1
+            pos_found.append(f"{kind}: POS {pos}")
+            pos_ok = pos_ok and pos == "1001"
+        res.ob("C12.R3", f, f, ok,
                expected={"substitution": "REF/ALT = the two alleles of the operation",
                          "insertion": "REF = reference base(s), ALT = REF + inserted sequence",
                          "deletion": "REF = anchor + deleted sequence, ALT = anchor",
                          "multi-substitution": "REF/ALT = the two allele strings"}[kind],
                found=found, clause="REF/ALT spell the variant against the reference", key=f"REF/ALT:{kind}")
+    res.ob("C12.R3", f, f, pos_ok, expected="POS = <0-based variant position> + 1 (variant at 0-based 1000 -> POS 1001)",
+           found="; ".join(pos_found), clause="positions are one-based", key="vcf-pos")
 
 
 def r4(repo, res):
